@@ -148,12 +148,30 @@ def stub_repr():
 
     import marshmallow.validate as mv
 
-    # error-text formatting with the offending value realises it (str.format); not the subject
-    mv.Range._format_error = lambda self, value, message: message
-    mv.OneOf._format_error = lambda self, value: self.error
-    message.Message.__repr__ = lambda self: "Message(...)"
-    node.Node.__repr__ = lambda self: "Node(...)"
-    node.Child.__repr__ = lambda self: "Child(...)"
+    if getattr(mv.Range, "_sx_stubbed", False):
+        return
+
+    def tracing():
+        if NO_CH:
+            return False
+        try:
+            from crosshair.tracers import is_tracing
+
+            return is_tracing()
+        except Exception:  # noqa: BLE001
+            return False
+
+    # Formatting a symbolic value realises it (one path per value).  Error *texts* and reprs are not
+    # the subject of any property, so they are constant WHILE TRACING ONLY: the concrete twin of every
+    # path and the stand-alone replay run the real formatting code (a crash in it is still found).
+    o_range, o_oneof = mv.Range._format_error, mv.OneOf._format_error
+    o_mr, o_nr, o_cr = message.Message.__repr__, node.Node.__repr__, node.Child.__repr__
+    mv.Range._format_error = lambda self, value, message: message if tracing() else o_range(self, value, message)
+    mv.OneOf._format_error = lambda self, value: self.error if tracing() else o_oneof(self, value)
+    message.Message.__repr__ = lambda self: "Message(...)" if tracing() else o_mr(self)
+    node.Node.__repr__ = lambda self: "Node(...)" if tracing() else o_nr(self)
+    node.Child.__repr__ = lambda self: "Child(...)" if tracing() else o_cr(self)
+    mv.Range._sx_stubbed = True
 
 
 def mk_add_node(inp, gw, node_id, node_type=17, version="2.0", **kw):
